@@ -37,7 +37,7 @@ func runC03(c *Ctx) {
 	if R == nil {
 		return
 	}
-	res := runLocks(p, busGuards(R), map[string]bool{PkgBus: true, PkgState: true})
+	res := runLocksFull(p, busGuards(R), map[string]bool{PkgBus: true, PkgState: true}, false, busImmutable(R))
 	c.Stats["product_states"] += res.States
 	c.Stats["lock_roots"] = res.Roots + res.Closures
 	c.Stats["lock_ops"] = res.LockOps
@@ -70,6 +70,8 @@ func runC03(c *Ctx) {
 	}
 	c.Discharge("C03.R4", "callbacks-outside-locks", "", "all other callback invocations found on the explored paths happen with no lock held")
 	c.Stats["callbacks_under_lock"] = len(res.Callbacks)
+	// a sequential lock leaked on some exit (e.g. the panic edge) blocks the next delivery forever
+	runFrames(c, p, R, map[string]string{"C05.R3": "C03.R5"})
 	// R3
 	claimWordDiscipline(c, p, R, "C03.R3")
 	// R2 (root module part)
@@ -108,7 +110,7 @@ func runC03LockOrder(c *Ctx, resolve bool) {
 	if R == nil {
 		return
 	}
-	res := runLocksOpt(p, busGuards(R), map[string]bool{PkgBus: true, PkgState: true}, resolve)
+	res := runLocksFull(p, busGuards(R), map[string]bool{PkgBus: true, PkgState: true}, resolve, busImmutable(R))
 	c.Stats["product_states"] += res.States
 	allowed := map[string]string{
 		"EventBus.storeMu -> MemoryStore.mu":    "persist appends to the bundled memory store while serialising appends",
@@ -223,4 +225,13 @@ func checkWaitGroupProtocol(c *Ctx, p *Prog, R *BusRoles, rule string) {
 				"Add(1) on the bus wait group (reachable from the exported "+FuncDisplay(a.fn)+") can start from a zero counter while another goroutine is inside Wait (exported "+FuncDisplay(w.fn)+"); nothing orders the two. sync.WaitGroup documents this as misuse: the race detector reports it and the runtime can panic with 'WaitGroup is reused before previous Wait has returned'", nil)
 		}
 	}
+}
+
+// busImmutable lists the fields that C03.R2 shows are written only before the object
+// is shared (registration flags, bus configuration): loads of them may be correlated.
+func busImmutable(R *BusRoles) []string {
+	rn := R.RegName()
+	return []string{rn + "." + R.RegSeq, rn + "." + R.RegOnce, rn + "." + R.RegAsync, rn + "." + R.RegFilter,
+		"EventBus." + R.BusObs, "EventBus." + R.BusPanicH, "EventBus." + R.BusPersistErrH, "EventBus." + R.BusStore,
+		"EventBus." + R.BusBefore, "EventBus." + R.BusAfter, "EventBus." + R.BusBeforeCtx, "EventBus." + R.BusAfterCtx}
 }
